@@ -1580,6 +1580,14 @@ def mul(info, a):
 
     return e
 
+def imul_overflow(lo, hi):
+    # CF=OF=1 iff the upper half of the signed product is not the sign
+    # extension of the (truncated) lower half
+    fill = ExprCond(get_op_msb(lo), ExprInt_from(hi, -1), ExprInt_from(hi, 0))
+    cond = hi - fill
+    return [ExprAff(cf, ExprCond(cond, ExprInt32(1), ExprInt32(0))),
+            ExprAff(of, ExprCond(cond, ExprInt32(1), ExprInt32(0)))]
+
 def imul(info, a, b = None, c = None):
     e= []
     if b is None:
@@ -1588,28 +1596,26 @@ def imul(info, a, b = None, c = None):
             c_lo = ExprOp('imul32_lo', eax, a)
             e.append(ExprAff(edx, c_hi))
             e.append(ExprAff(eax, c_lo))
-            e.append(ExprAff(cf, ExprCond(c_hi, ExprInt32(1), ExprInt32(0))))
-            e.append(ExprAff(of, ExprCond(c_hi, ExprInt32(1), ExprInt32(0))))
+            e+=imul_overflow(c_lo, c_hi)
         elif a.get_size() == 16:
             c_hi = ExprOp('imul16_hi', r_ax, a)
             c_lo = ExprOp('imul16_lo', r_ax, a)
             e.append(ExprAff(r_dx, c_hi))
             e.append(ExprAff(r_ax, c_lo))
-            e.append(ExprAff(cf, ExprCond(c_hi, ExprInt32(1), ExprInt32(0))))
-            e.append(ExprAff(of, ExprCond(c_hi, ExprInt32(1), ExprInt32(0))))
+            e+=imul_overflow(c_lo, c_hi)
         elif a.get_size() == 8:
             c = ExprOp('imul08', eax, a)
             e.append(ExprAff(eax[:16], c))
-            e.append(ExprAff(cf, ExprCond(c-eax[:16], ExprInt32(1), ExprInt32(0))))
-            e.append(ExprAff(of, ExprCond(c-eax[:16], ExprInt32(1), ExprInt32(0))))
+            e+=imul_overflow(c[0:8], c[8:16])
     else:
         if c is None:
             c = b
             b = a
+        s = a.get_size()
+        c_hi = ExprOp('imul%d_hi'%s, b, c)
         c = ExprOp('*', b, c)
         e.append(ExprAff(a, c))
-        e.append(ExprAff(cf, ExprCond(c[16:], ExprInt32(1), ExprInt32(0))))
-        e.append(ExprAff(of, ExprCond(c[16:], ExprInt32(1), ExprInt32(0))))
+        e+=imul_overflow(c, c_hi)
     return e
 
 def cdq(info):
